@@ -329,7 +329,7 @@ func runSendBatch(s sbScript) sbResult {
 			for i, x := range rb {
 				b[i] = byte(x)
 			}
-			if e["op"] == "put" {
+			if _, isCall := callOf[string(b)]; isCall { // (successful executions of the batch's calls: puts and gets)
 				out.execs[string(b)]++
 			}
 		}
@@ -398,14 +398,28 @@ func TestVerifSendBatch(t *testing.T) {
 	}
 	rep := &simReport{Extra: map[string]any{}}
 	defer simWriteReport("sb_result.json", rep)
-	// a seeded stride through the scenario list
+	// the core of the scope - every combination of per-call outcomes and servers without cancellation, re-location failure or
+	// a call context of its own - is always run completely; the rest is sampled with a seeded stride
+	var core, rest []int
+	for idx, s := range scripts {
+		if s.Scr.Cancel.At == "never" && s.Scr.Reloc[0] == "ok" && s.Scr.Reloc[1] == "ok" && len(s.Scr.Own) == 0 && len(s.Scr.Srv) <= 2 {
+			core = append(core, idx)
+		} else {
+			rest = append(rest, idx)
+		}
+	}
 	stride := 1
-	if limit > 0 && len(scripts) > limit {
-		stride = len(scripts) / limit
+	if limit > 0 && len(rest) > limit {
+		stride = len(rest) / limit
 	}
 	off := int(seed) % stride
+	order := append([]int{}, core...)
+	for k := off; k < len(rest); k += stride {
+		order = append(order, rest[k])
+	}
+	rep.Extra["core_scenarios"] = len(core)
 	ran := 0
-	for idx := off; idx < len(scripts); idx += stride {
+	for _, idx := range order {
 		s := scripts[idx]
 		var r sbResult
 		synctest.Test(t, func(t *testing.T) { r = runSendBatch(s) })
